@@ -25,6 +25,7 @@ RULE = ("2..6 concurrent raw-peer sessions with seeded schedules over {connect, 
 ASSUMPTIONS = ["counter values are read from AvailableConnections.value (read-only); the black-box re-admission check does not "
                "depend on them", "MemoryUserManager"]
 REQUIRED_MONITORS = ["counter_at_quiescence", "blackbox_readmission", "contract_calls", "bound_at_events"]
+ANCHOR_FUNCTIONS = ['server.py:AvailableConnections.acquire', 'server.py:AvailableConnections.release', 'server.py:Server.greeting', 'server.py:MemoryUserManager.get_user']
 EXHAUSTIVE = {"quick": False, "thorough": False}
 
 
